@@ -215,10 +215,14 @@ func parseRule(s string) *hotspot.Rule {
 func doEntry(t []string) (*base.SentinelEntry, string) {
 	res := t[2]
 	var args []interface{}
+	var groups [][]interface{} // `+` closes a WithArgs option and starts the next one
 	var atts map[interface{}]interface{}
 	batch := int64(-1)
 	for _, s := range t[3:] {
-		if strings.HasPrefix(s, "#") {
+		if s == "+" {
+			groups = append(groups, args)
+			args = nil
+		} else if strings.HasPrefix(s, "#") {
 			batch = int64(vh.U(s[1:]))
 		} else if strings.HasPrefix(s, "@") {
 			kv := strings.SplitN(s[1:], "=", 2)
@@ -241,6 +245,9 @@ func doEntry(t []string) (*base.SentinelEntry, string) {
 		} else {
 			opts = append(opts, sentinel.WithBatchCount(uint32(batch)), sentinel.WithResourceType(base.ResTypeWeb))
 		}
+	}
+	for _, g := range groups {
+		opts = append(opts, sentinel.WithArgs(g...))
 	}
 	if len(args) > 0 {
 		opts = append(opts, sentinel.WithArgs(args...))
